@@ -194,6 +194,9 @@ AX_AEON_NET = [
     z3.ForAll([_bd], LImpl.len(DnfOf(_bd)) >= 0, patterns=[DnfOf(_bd)]),
 ]
 TRUSTED_NET = {
+    "aeon.BooleanNetwork methods called with a variable NAME":
+        "get_update_function / predecessors / get_variable_name and SymbolicContext.mk_network_variable accept the name of a variable in place of its id and "
+        "resolve it to the variable of that name (BnIdOf; used by interaction_graph_utils.source_nodes)",
     "aeon.BooleanNetwork.variables / variable_names / get_variable_name / get_update_function / predecessors":
         "variables() lists every variable once; variable_names() are their names in the same order; get_update_function is None exactly for "
         "variables without one (AX_AEON_NET)",
@@ -228,6 +231,11 @@ def install_network(reg):
                 st.assume(z3.ForAll([_a], z3.Implies(z3.And(0 <= _a, _a < LBV.len(L)), LNm.at(r.t)[_a] == BnName(v.t, LBV.at(L)[_a])),
                                     patterns=[LNm.at(r.t)[_a]]))
                 return r
+            if meth in ("get_update_function", "predecessors", "get_variable_name") and len(args) == 1 and args[0].ty == TName:
+                eng.oblige(st, f"pre.{meth}.isvar@{node.lineno}", T.isvar(bn_net_of(v.t), args[0].t), node.lineno, kind="pre")
+                if meth == "get_variable_name":
+                    return Val(TName, args[0].t)
+                args = [Val(TBnVar, BnIdOf(v.t, args[0].t))]
             if meth == "get_variable_name" and len(args) == 1 and args[0].ty == TBnVar:
                 return Val(TName, BnName(v.t, args[0].t))
             if meth == "get_update_function" and len(args) == 1 and args[0].ty == TBnVar:
@@ -246,6 +254,9 @@ def install_network(reg):
                 return Val(TBdd, MkFn(v.t, args[0].t))
             if meth == "mk_network_variable" and len(args) == 1 and args[0].ty == TBnVar:
                 return Val(TBdd, MkVar(v.t, args[0].t))
+            if meth == "mk_network_variable" and len(args) == 1 and args[0].ty == TName:
+                eng.oblige(st, f"pre.mk_network_variable.isvar@{node.lineno}", T.isvar(CtxNet(v.t), args[0].t), node.lineno, kind="pre")
+                return Val(TBdd, MkVar(v.t, BnIdOf(CtxNetObj(v.t), args[0].t)))
             if meth == "bdd_variable_set" and not args:
                 return Val(TBvs, BvsOf(v.t))
             m = base_model(v)
@@ -450,6 +461,46 @@ class _BddAssign(Val):
         self.t = None
 
 
+def install_source_nodes(reg):
+    """interaction_graph_utils.source_nodes: the variables without an update function and those whose update-function BDD IS the BDD of the variable itself
+    (semantic identity by canonicity of BDDs - ASSUMED of AEON), in declaration order, each once."""
+    OptCtx = TOpt(TCtxObj)
+    vq = z3.Const("v!sn", Name)
+    a_, b_ = z3.Int("a!sn"), z3.Int("b!sn")
+
+    def cx(c):
+        return z3.If(OptCtx.is_none(c.old.ctx), CtxOfNet(c.network), OptCtx.val(c.old.ctx))
+
+    def is_src(c, x):
+        return z3.Or(z3.Not(HasFn(c.network, x)), MkFn(cx(c), UpdFn(c.network, x)) == MkVar(cx(c), x))
+
+    def listed(c, l, k):
+        L = BnVarList(c.network)
+        return z3.And(LNm.len(l) >= 0,
+                      z3.ForAll([vq], A.MemName(l, vq) == z3.Exists([a_], z3.And(0 <= a_, a_ < k, BnName(c.network, LBV.at(L)[a_]) == vq, is_src(c, LBV.at(L)[a_])))),
+                      z3.ForAll([a_, b_], z3.Implies(z3.And(0 <= a_, a_ < b_, b_ < LNm.len(l)), LNm.at(l)[a_] != LNm.at(l)[b_])))
+
+    def inv(c):
+        L = BnVarList(c.network)
+        return [("names", z3.And(LNm.len(c.coll) == LBV.len(L), z3.ForAll([a_], z3.Implies(z3.And(0 <= a_, a_ < LBV.len(L)),
+                                                                                          LNm.at(c.coll)[a_] == BnName(c.network, LBV.at(L)[a_]))))),
+                ("context", c.ctx == OptCtx.some(cx(c))),
+                ("sources_so_far", listed(c, c.result, c.i))]
+
+    reg.add(Contract(
+        "biobalm.interaction_graph_utils.source_nodes", params=[("network", TNetObj), ("ctx", OptCtx)], defaults={"ctx": None}, result_type=LNm,
+        properties=("C18", "C03"),
+        requires=[lambda c: z3.Implies(z3.Not(OptCtx.is_none(c.ctx)), z3.And(CtxNet(OptCtx.val(c.ctx)) == bn_net_of(c.network), CtxNetObj(OptCtx.val(c.ctx)) == c.network)),
+                  # cleanup_network (assumed) rejects variables without an update function that have regulators
+                  lambda c: z3.ForAll([a_], z3.Implies(z3.And(0 <= a_, a_ < LBV.len(BnVarList(c.network)), z3.Not(HasFn(c.network, LBV.at(BnVarList(c.network))[a_]))),
+                                                       PredCount(c.network, LBV.at(BnVarList(c.network))[a_]) == 0))],
+        ensures=[("exactly_the_sources_each_once", lambda c: listed(c, c.result, LBV.len(BnVarList(c.network))))],
+        axioms=_LazyAxioms(AX_AEON_NET, lambda: _names()["axioms"], A.AX_MEMNAME), local_types={"result": LNm, "update_function": TOpt(TUpd)},
+        loops={0: LoopContract("for var in network.variable_names()", inv)},
+        note="a variable is listed iff it has no update function or the BDD of its update function equals the BDD of the variable (canonical BDDs: the "
+             "function is the identity); declaration order, no duplicates; callers (the block / SCC drivers) are outside the contracts"))
+
+
 def install_generator(reg):
     reg.extra_trusted.append(TRUSTED_BDD)
     T.LEMMAS["def.DnfOf"] = ("DnfOf(b) NAMES the list optimized_recursive_dnf_generator yields for the BDD b: the generator is a deterministic function "
@@ -568,3 +619,40 @@ def install_generator(reg):
                    ("coll", c.coll == R2(c)), ("in_support", Support(c.bdd)[c.best_var]),
                    ("both_halves_so_far", z3.And(LImpl.len(Y(c)) == LImpl.len(R1(c)) + c.i, first_part(c, LImpl.len(R1(c))), second_part(c, c.i)))])},
         note="Shannon expansion on the chosen variable; recursion measured by the size of the support"))
+
+
+# ---- names in place of variable ids ----
+# Declared LAZILY, on first use by the verification of source_nodes: z3 numbers its terms in creation order and the E-matching proofs of the
+# functions above (network_to_petrinet#structure) are sensitive to that order, so nothing may be declared before their terms exist.
+_NAMES = {}
+
+
+def _names():
+    if not _NAMES:
+        CtxNetObj = z3.Function("ctx_network_object", TCtxObj.sort(), TNetObj.sort())
+        BnIdOf = z3.Function("bn_variable_id_of_name", TNetObj.sort(), Name, TBnVar.sort())      # AEON resolves a variable given by its name
+        _NAMES.update(CtxNetObj=CtxNetObj, BnIdOf=BnIdOf, axioms=[
+            z3.ForAll([_nt], CtxNetObj(CtxOfNet(_nt)) == _nt, patterns=[CtxOfNet(_nt)]),
+            z3.ForAll([_nt, _a], z3.Implies(z3.And(0 <= _a, _a < LBV.len(BnVarList(_nt))),
+                                            BnIdOf(_nt, BnName(_nt, LBV.at(BnVarList(_nt))[_a])) == LBV.at(BnVarList(_nt))[_a]),
+                      patterns=[BnName(_nt, LBV.at(BnVarList(_nt))[_a])])])
+    return _NAMES
+
+
+def BnIdOf(nt, nm):
+    return _names()["BnIdOf"](nt, nm)
+
+
+def CtxNetObj(cx):
+    return _names()["CtxNetObj"](cx)
+
+
+class _LazyAxioms:
+    def __init__(self, *parts):
+        self.parts = parts
+
+    def __iter__(self):
+        out = []
+        for p in self.parts:
+            out += list(p() if callable(p) else p)
+        return iter(out)
